@@ -1640,14 +1640,28 @@ func glQualify(pkg string, names ...string) {
 }
 
 func extractGoLean() {
+	// One unit per property, so that a refusal (or a change) in code a property does not speak about
+	// cannot break that property's tie: TrShell (C16) | TrStrutil (supporting code).
 	glTranslate(glUnit{
-		Module: "TrStrutil", NS: "Glb.Tr.Strutil",
+		Module: "TrShell", NS: "Glb.Tr.Strutil",
 		Funcs: []glFunc{
-			{File: "util/strutil/strutil.go", Name: "SliceContain", Args: "(slice : List Bytes) (value : Bytes)", Ret: "Bool"},
 			{File: "util/strutil/strutil.go", Name: "ShellEscape", Args: "(s : Bytes)", Ret: "Bytes"},
 			{File: "util/strutil/strutil.go", Name: "ShellEscapeExceptTilde", Args: "(s : Bytes)", Ret: "Bytes"},
+		},
+	})
+	glTranslate(glUnit{
+		Module: "TrStrutil", NS: "Glb.Tr.Strutil",
+		Imports: []string{"Glb.Generated.TrShell", "Glb.Generated.TrUnderscore"},
+		Funcs: []glFunc{
+			{File: "util/strutil/strutil.go", Name: "SliceContain", Args: "(slice : List Bytes) (value : Bytes)", Ret: "Bool"},
 			{File: "util/strutil/strutil.go", Name: "IsDigitString", Args: "(s : Bytes)", Ret: "Bool"},
 			{File: "util/strutil/strutil.go", Name: "Camelize", Args: "(s : Bytes) (upper : Bool)", Ret: "Bytes"},
+		},
+	})
+	// TrUnderscore (C09: the environment-variable name of a flag is Underscore(name, true))
+	glTranslate(glUnit{
+		Module: "TrUnderscore", NS: "Glb.Tr.Strutil",
+		Funcs: []glFunc{
 			{File: "util/strutil/strutil.go", Name: "Underscore", Args: "(s : Bytes) (upper : Bool)", Ret: "Bytes"},
 		},
 	})
@@ -1661,9 +1675,20 @@ func extractGoLean() {
 	bufI := "(buf : Bytes) (i : Int)"
 	ptrBuf := map[string]bool{"buf": true}
 	frame := []string{"f, _ := runtime.CallersFrames"}
+	// TrJson (C01): the string escaper, the source attribute, the level label | TrLogger (supporting code)
+	glTranslate(glUnit{
+		Module: "TrJson", NS: "Glb.Tr.Logger",
+		Imports: []string{"Glb.Go.LibUtf8", "Glb.Generated.Logger"},
+		Funcs: []glFunc{
+			{File: "logger/level.go", Name: "appendFullLevel", Args: "(buf : Bytes) (l : Int) (colorful : Bool)", Ret: "Bytes", Ptr: ptrBuf, Env: tables},
+			{File: "logger/json_handler.go", Name: "appendJsonString", Args: "(buf : Bytes) (str : Bytes)", Ret: "Bytes", Ptr: ptrBuf, Env: tables,
+				Fuel: map[int]string{0: "(Glb.Go.len str + 1).toNat"}},
+			{File: "logger/json_handler.go", Name: "appendJsonSource", Args: "(buf : Bytes) (file : Bytes) (line : Int)", Ret: "Bytes", Ptr: ptrBuf, Env: tables, Skip: frame},
+		},
+	})
 	glTranslate(glUnit{
 		Module: "TrLogger", NS: "Glb.Tr.Logger",
-		Imports: []string{"Glb.Go.LibUtf8", "Glb.Generated.Logger"},
+		Imports: []string{"Glb.Go.LibUtf8", "Glb.Generated.Logger", "Glb.Generated.TrJson"},
 		Funcs: []glFunc{
 			{File: "logger/buffer.go", Name: "appendIntWidth1", Args: bufI, Ret: "Bytes", Ptr: ptrBuf, Env: tables},
 			{File: "logger/buffer.go", Name: "appendIntWidth2", Args: bufI, Ret: "Bytes", Ptr: ptrBuf, Env: tables},
@@ -1673,10 +1698,6 @@ func extractGoLean() {
 				Tuples: map[string][]string{"t.Date()": {"year0", "month0", "day0"}, "t.Clock()": {"hour0", "min0", "sec0"}}},
 			{File: "logger/level.go", Name: "ValidLevel", Args: "(l : Int)", Ret: "Bool"},
 			{File: "logger/level.go", Name: "appendShortLevel", Args: "(buf : Bytes) (l : Int) (colorful : Bool)", Ret: "Bytes", Ptr: ptrBuf, Env: tables},
-			{File: "logger/level.go", Name: "appendFullLevel", Args: "(buf : Bytes) (l : Int) (colorful : Bool)", Ret: "Bytes", Ptr: ptrBuf, Env: tables},
-			{File: "logger/json_handler.go", Name: "appendJsonString", Args: "(buf : Bytes) (str : Bytes)", Ret: "Bytes", Ptr: ptrBuf, Env: tables,
-				Fuel: map[int]string{0: "(Glb.Go.len str + 1).toNat"}},
-			{File: "logger/json_handler.go", Name: "appendJsonSource", Args: "(buf : Bytes) (file : Bytes) (line : Int)", Ret: "Bytes", Ptr: ptrBuf, Env: tables, Skip: frame},
 			{File: "logger/nano_handler.go", Name: "appendNanoSource", Args: "(buf : Bytes) (file : Bytes) (line : Int)", Ret: "Bytes", Ptr: ptrBuf, Env: tables, Skip: frame},
 		},
 	})
@@ -1708,11 +1729,18 @@ func extractGoLean() {
 		},
 	})
 
+	// TrResolve (C17) | TrFsutil (supporting code)
 	glTranslate(glUnit{
-		Module: "TrFsutil", NS: "Glb.Tr.Fsutil",
+		Module: "TrResolve", NS: "Glb.Tr.Fsutil",
 		Imports: []string{"Glb.Go.LibPath"},
 		Funcs: []glFunc{
 			{File: "util/fsutil/path.go", Name: "ResolveUrlPath", Args: "(baseFilePath rawUrlPath : Bytes)", Ret: "Bytes"},
+		},
+	})
+	glTranslate(glUnit{
+		Module: "TrFsutil", NS: "Glb.Tr.Fsutil",
+		Imports: []string{"Glb.Go.LibPath", "Glb.Generated.TrResolve"},
+		Funcs: []glFunc{
 			// errors are modelled by "is non-nil"; os.UserHomeDir() is outside the model: its two results are parameters
 			{File: "util/fsutil/path.go", Name: "ExpandHomeDir", Args: "(rawFilePath home : Bytes) (homeErr : Bool)", Ret: "(Bytes × Bool)",
 				Env:    map[string]string{"nil": "false"},
